@@ -252,7 +252,11 @@ class _Proxy:
         return getattr(self.__dict__["_real"], k)
 
 
-PROMPT_CAP = 40
+# hard cap on what one run may be handed at its prompts - well above the largest number of answers a
+# scenario supplies - beyond which "the command keeps prompting" is recorded as an observation
+PROMPT_CAP = 5000
+# how many other answers / rejected entries a prompt gets before the decisive one (scale dimension)
+COUNTS = (1, 2, 39, 40, 41, 255, 256, 999, 1000, 1001, 2500)
 
 
 class PromptLoop(BaseException):
@@ -274,10 +278,20 @@ class Operator:
         self.recall = recall            # callable -> str | None : "the PIN I have just set" (typed once)
         self.typed = []
         self.handed = 0
+        self.line_at = 0
+        self.pin_at = 0
         self.looping = False
         self.ended = None               # callable -> bool : the operator's input has ended by now
 
     def _emit(self, ev):
+        # a run of identical hand-outs (nothing crossed the link in between) is one event with a count
+        last = self.world.log[-1] if self.world.log else None
+        if last is not None and last.get("ev") == ev["ev"] and last.get("cls") == ev.get("cls") \
+                and last.get("ok") == ev.get("ok") and "n" in last:
+            last["n"] += 1
+            last.update({k: ev[k] for k in ("line", "pin") if k in ev})
+            return
+        ev["n"] = 1
         ev["truth"] = self.world.device.snapshot()
         self.world.emit(ev)
 
@@ -290,10 +304,11 @@ class Operator:
     # sys.stdin stand-in
     def readline(self):
         self._count()
-        if not self.lines:
+        if self.line_at >= len(self.lines):
             self._emit({"ev": "stdin", "cls": "eof", "line": None})
             return ""
-        text, cls = self.lines.pop(0)
+        text, cls = self.lines[self.line_at]
+        self.line_at += 1
         self._emit({"ev": "stdin", "cls": cls, "line": text})
         return text + "\n"
 
@@ -305,10 +320,11 @@ class Operator:
             if r is not None:
                 self.recall = None      # typed once; after that the input goes on as scripted
         if r is None:
-            if not self.pins or (self.ended is not None and self.ended()):
+            if self.pin_at >= len(self.pins) or (self.ended is not None and self.ended()):
                 self._emit({"ev": "getpass", "ok": "f", "pin": None})
                 raise EOFError("end of the operator's input (getpass)")
-            r = self.pins.pop(0)
+            r = self.pins[self.pin_at]
+            self.pin_at += 1
         self.typed.append(r)
         self._emit({"ev": "getpass", "ok": "na", "pin": r})
         return r
@@ -379,7 +395,7 @@ FAVOURABLE = {"echo": "t", "answers": "yes", "wipe": "t", "unlock": "t", "newpin
 
 
 def scenario_from_model(cfg, e, rng, boundary=False, member=None, favourable=False, shapes=None,
-                        hist=None):
+                        hist=None, n_other=1, n_rejected=None):
     """Concretise one behaviour of GenAdmin (cfg + lazily chosen env). Dimensions the behaviour never
     looked at ("?") get seeded random members of their domain - or, for the PIN-decisive behaviours
     (`favourable`), the value that lets the command go on, so that a PIN the command should have
@@ -425,6 +441,9 @@ def scenario_from_model(cfg, e, rng, boundary=False, member=None, favourable=Fal
             pins.append(pin_of_class("ok", rng))
         if e["retry"] == "eof0":
             pins = []
+        if n_rejected is not None and e["retry"] in ("valid", "eof"):
+            # scale: the prompt gets n rejected entries before the compliant one / the end of input
+            pins = [first] * n_rejected + pins[1:]
     answers = _pick(e["answers"], ["yes", "no", "oy", "on"], rng)
     onb = e["onb"]
     if onb == "?":
@@ -440,7 +459,7 @@ def scenario_from_model(cfg, e, rng, boundary=False, member=None, favourable=Fal
         newpin=_pick(e["newpin"], ["t", "f"], rng), mode2=_pick(e["mode2"], MODES, rng),
         keys=_pick(e["keys"], ["t", "f"], rng), keys_fail_at=0, rng=rng, shapes=shapes, pre=pre, link=link,
         enter=("other" if e.get("enter", "?") == "?" else e["enter"]),
-        post=("retype" if e.get("post", "?") == "?" else e["post"]))
+        post=("retype" if e.get("post", "?") == "?" else e["post"]), n_other=n_other)
     sc.desc["pinc"] = pinc
     return sc
 
@@ -478,6 +497,14 @@ def clean_prefix(b):
             and e["pinc"] in ("?", "ok") and e["pre"] in ("?", "absent"))
 
 
+def clean_prefix_but(b, dims):
+    """clean_prefix, not counting the named dimensions."""
+    e = dict(b["env"])
+    for k in dims:
+        e[k] = "?"
+    return clean_prefix({"cfg": b["cfg"], "env": e})
+
+
 def pin_decisive(b):
     """A behaviour of the model in which the PIN content is the only deviation: the PIN was looked at
     and either everything went through, or the command stopped because of the PIN (rejected option
@@ -490,7 +517,8 @@ def pin_decisive(b):
 
 def build(op, plat, any_pin, no_unlock, src, pins, outfile, mode, onb, echo, answers, wipe, unlock,
           newpin, mode2, keys, rng, keys_fail_at=None, upin=None, strict=False, no_exec=False,
-          devseed=None, cli=False, shapes=None, pre="absent", link=None, enter="other", post="retype"):
+          devseed=None, cli=False, shapes=None, pre="absent", link=None, enter="other", post="retype",
+          n_other=1):
     """The concrete environment of one run (all fields are plain data: the replay file is this).
     `shapes`: {echo, onb, wipe, unlock, unlock_byte, newpin} -> how the device words that answer."""
     shapes = shapes or {}
@@ -511,7 +539,7 @@ def build(op, plat, any_pin, no_unlock, src, pins, outfile, mode, onb, echo, ans
                 yes=rng.choice(YES), no=rng.choice(NO), other=rng.choice(OTHER),
                 verbose=rng.random() < 0.3, cli=bool(cli),
                 pre=pre, pre_devseed=rng.randrange(1 << 30), link=link, enter=enter, post=post,
-                cli_form=rng.choice(["long", "short"]))
+                cli_form=rng.choice(["long", "short"]), n_other=n_other)
     return Scenario(desc=desc)
 
 
@@ -555,9 +583,22 @@ def acceptance(d):
 
 def answer_lines(d):
     # "eof" / "oeof": the operator's input ends at the first prompt / after one other answer
-    seq = {"yes": ["yes"], "no": ["no"], "oy": ["other", "yes"], "on": ["other", "no"],
-           "eof": [], "oeof": ["other"]}[d["answers"]]
-    return [(d[c], c) for c in seq]
+    # n_other: how many other answers come before the decisive one (scale dimension)
+    n = d.get("n_other", 1)
+    seq = {"yes": ["yes"], "no": ["no"], "oy": ["other"] * n + ["yes"], "on": ["other"] * n + ["no"],
+           "eof": [], "oeof": ["other"] * n}[d["answers"]]
+    others = [d["other"]] + list(OTHER)
+    return [((others[k % len(others)] if c == "other" else d[c]), c) for k, c in enumerate(seq)]
+
+
+def collapse(seq):
+    """Consecutive duplicates dropped (n identical answers / entries in a row read as one: the
+    predicates of AdminProps do not count them)."""
+    out = []
+    for x in seq:
+        if not out or out[-1] != x:
+            out.append(x)
+    return out
 
 
 # ---------------------------------------------------------------------- run + project
@@ -712,9 +753,10 @@ def run(sc, scratch, tag, prev_seed=None, out_path=None):
                "u": dev.keys[path_bytes(p)].hex()} for p in DOC_PATHS] if d["op"] == "pubkeys" else []
     trace = {
         "op": d["op"], "plat": d["plat"], "any_pin": d["any_pin"], "no_unlock": d["no_unlock"],
-        "src": d["src"], "pins": [list(p.encode("utf-8", "surrogateescape")) for p in d["pins"]],
+        "src": d["src"],
+        "pins": collapse([list(p.encode("utf-8", "surrogateescape")) for p in d["pins"]]),
         "upin": list(d["upin"].encode()), "outfile": d["outfile"],
-        "answers": [c for (_, c) in answer_lines(d)], "d0": d0, "acc": acceptance(d),
+        "answers": collapse([c for (_, c) in answer_lines(d)]), "d0": d0, "acc": acceptance(d),
         "prev_seed": list(prev_seed) if prev_seed else [],
         "ev": evs, "outcome": outcome, "files": files, "expect": expect,
         "fin_pin": list(bytes(dev.pin)), "pre": d.get("pre", "absent"),
@@ -851,10 +893,10 @@ def project(world):
             continue
         t = e["truth"]
         if kind == "stdin":
-            evs.append(_ev("stdin", t, ans=e["cls"]))
+            evs.append(_ev("stdin", t, ans=e["cls"], i=e.get("n", 1)))
             continue
         if kind == "getpass":
-            evs.append(_ev("getpass", t, ok=e["ok"]))
+            evs.append(_ev("getpass", t, ok=e["ok"], i=e.get("n", 1)))
             continue
         if kind == "urandom":
             evs.append(_ev("urandom", t, data=e["bytes"]))
